@@ -267,9 +267,24 @@ class Gen:
                 extra = self.rng.sample(pool, min(len(pool), self.rng.randrange(1, 3)))
         # (the writer itself also runs after them, so that what it writes is newer than anything the source depends on)
         w["deps"] = sorted(set(w["deps"]) | set(extra))
-        name_holder = self.add_src(deps=[w["id"]] + extra)
-        w["writes"] = name_holder["store"]
         self.writers.add(w["id"])
+        src_deps = [w["id"]] + extra
+        shape = self.rng.random()
+        if shape < 0.2:
+            # writer -> (private) literal -> source: the ordering is routed through a literal node
+            i = self.new_id()
+            self.nodes.append(dict(id=i, kind="lit", value=["c", self.const()], deps=sorted(src_deps), scope=self.scope()))
+            self.writers.add(i)   # private: nobody else may depend on it (that would force the writer to run)
+            src_deps = [i] + ([w["id"]] if self.coin(0.3) else [])
+        elif shape < 0.45:
+            # a chain of dependent sources: this one also waits for an earlier dependent source
+            earlier = [n["id"] for n in self.nodes if n["kind"] == "src" and n.get("deps")]
+            if earlier:
+                a = self.rng.choice(earlier)
+                src_deps = src_deps + [a]
+                w["deps"] = sorted(set(w["deps"]) | {a})   # (written after - hence newer than - the earlier source)
+        name_holder = self.add_src(deps=src_deps)
+        w["writes"] = name_holder["store"]
         # the writer is consumed only through its store
         if w["id"] in self.usable:
             self.usable.remove(w["id"])
@@ -285,6 +300,8 @@ class Gen:
         y = self.rng.choice(cands)
         z = self.add_src(deps=[y["id"]])
         self.stores[y["store"]]["feeds"] = z["store"]
+        # alias: one store registered twice (`registry.source(plan, registry[y])`): both entries report one modified time
+        self.stores[y["store"]]["alias"] = self.coin(0.5)
         return z
 
     # ---- whole world -----------------------------------------------------
